@@ -37,7 +37,13 @@ Cells are `Val`s (`nil` = Go nil interface / zero value); a metadata cell is the
 Value suppliers (`ValFn`): constant, ref (`row[idx]`, report/ref_report_field_value.go:29-31), nvl
 (nvl_report_field_value.go:65-85), numeric expression (numeric_expression_report_field_value.go:86-106), selector over a
 greater-than condition (selector_report_field_value.go:99-121, condition_report_field_value.go:69-79), cast
-(cast_field_report_value.go:62-74).  `ValFn.eval` is a function of the row's VALUES: a supplier only reads cells.
+(cast_field_report_value.go:62-74), reduce over named / all columns (reduce_field_report_value.go:36-149).
+`ValFn.eval` is a function of the row's VALUES: a supplier only reads cells.  A stage (`ValFn`, the arguments of an
+`ROp` / `Stage`) is plain immutable data: the model cannot tell whether two occurrences of a stage are "the same
+object" — the library's stage objects (`ReduceFieldValue.fieldUrnsToReduce`, `DropFieldsFilter.fieldUrnsSetToRemove`,
+`SelectFieldsFilter.selectedFields`, `OverrideFieldMetadataFilter.optUpdatedCustomMeta`, the filter / datasource lists of
+the filtered and multi datasources) hold maps and slices, and the correspondence check shares ONE Go object between all
+occurrences and executions so that any state kept in them shows as a disagreement with this value semantics.
 Every `append` takes its own growth-oracle value.
 
 `ROp`/`runR`: a *row program* — a sequence of row/metadata operations, each reading earlier registers
@@ -80,6 +86,19 @@ def BinOp.app : BinOp → Int → Int → Int
   | .rate dt, a, b => (2 * (a - b)).tdiv dt
   | .twa n d, a, b => twaInt n d a b
 
+/-- tsquery.ReductionType (reductions.go:7-13) over integer cells; `avg` is the decimal average cast back to an integer
+    (`float64(sum) / float64(len)`, then `int64(·)`: truncation towards zero). -/
+inductive RedOp
+  | sum | avg | min | max | count
+  deriving DecidableEq, Repr
+
+def RedOp.app : RedOp → List Int → Int
+  | .sum, l => l.foldl (· + ·) 0                    -- reductions.go:76-82 sumInt
+  | .avg, l => (l.foldl (· + ·) 0).tdiv l.length    -- :84-90 avgInt, cast_field_report_value.go / numeric_operators.go:232
+  | .min, l => l.foldl (fun a b => if b < a then b else a) (l.headD 0)   -- :92-101 minInt
+  | .max, l => l.foldl (fun a b => if b > a then b else a) (l.headD 0)   -- :103-112 maxInt
+  | .count, l => l.length                           -- :152-154 countValues
+
 inductive ValFn
   | const (v : Val)
   | ref (idx : Nat)
@@ -87,7 +106,21 @@ inductive ValFn
   | bin (op : BinOp) (a b : ValFn)
   | selGt (a b t f : ValFn)
   | cast (a : ValFn)
+  | red (op : RedOp) (idxs : List Nat)   -- ReduceFieldValue over the named columns (reduce_field_report_value.go:48-56,
+                                         -- :140-146: the cells whose column is in the urn SET, in column order)
+  | redAll (op : RedOp)                  -- ReduceFieldValue over all columns the value sees (:41-47)
   deriving DecidableEq, Repr
+
+/-- the integer cells of `cells`, `none` if one of them is nil (the library only accepts required columns) -/
+def intsOf : List Val → Option (List Int)
+  | [] => some []
+  | .int i :: r => (intsOf r).map (i :: ·)
+  | .nil :: _ => none
+
+def reduceCells (op : RedOp) (cells : List Val) : Val :=
+  match intsOf cells with
+  | some l => .int (op.app l)
+  | none => .nil
 
 def valGt : Val → Val → Bool
   | .int a, .int b => a > b
@@ -105,6 +138,10 @@ def ValFn.eval (f : ValFn) (row : List Val) : Val :=
     | _, _ => .nil              -- numeric expression over optional operands: nil if one is nil
   | .selGt a b t f => if valGt (a.eval row) (b.eval row) then t.eval row else f.eval row
   | .cast a => a.eval row      -- integer -> decimal -> integer (nil stays nil)
+  -- the reduction of EXACTLY the named cells; the urn set / "all" are construction-time data of the value: evaluating
+  -- it (any number of times, in any pipeline) cannot change them
+  | .red op idxs => reduceCells op (((List.range row.length).filter (idxs.contains ·)).map (fun i => row.getD i Val.nil))
+  | .redAll op => reduceCells op row
 
 def hd (gs : List Nat) : Nat := gs.headD 0
 
